@@ -593,3 +593,34 @@ pub fn king_takes_corner_rook(rng: &mut Rng) -> Option<(Pos, RMove)> {
     }
     None
 }
+
+/// Kings, a phalanx of three to five pawns of one colour on adjacent files far up the board
+/// (5th/6th rank for white, 4th/3rd for black), and a few other men: positions whose static
+/// evaluation is far from the bare material count.
+pub fn pawn_phalanx_position(rng: &mut Rng) -> Pos {
+    loop {
+        let mut p = Pos { sq: [EMPTY; 64], white_to_move: rng.chance(1, 2), castle: [false; 4], ep: None, halfmove: 0, fullmove: 50 };
+        let white = rng.chance(1, 2);
+        let n = rng.range(3, 5) as i8;
+        let f0 = rng.below((9 - n) as u64) as i8;
+        for f in f0..f0 + n {
+            let r = if white { 4 + rng.below(2) as i8 } else { 3 - rng.below(2) as i8 };
+            p.sq[sq(f, r) as usize] = if white { PAWN } else { PAWN | BLACK };
+        }
+        let mut free: Vec<u8> = (0..64).filter(|s| p.sq[*s as usize] == EMPTY).collect();
+        rng.shuffle(&mut free);
+        p.sq[free.pop().unwrap() as usize] = KING;
+        p.sq[free.pop().unwrap() as usize] = KING | BLACK;
+        for _ in 0..rng.range(0, 3) {
+            let s = free.pop().unwrap();
+            let k = *rng.pick(&[PAWN, KNIGHT, BISHOP, ROOK]);
+            if k == PAWN && (rank_of(s) == 0 || rank_of(s) == 7) {
+                continue;
+            }
+            p.sq[s as usize] = k | if rng.chance(1, 2) { 0 } else { BLACK };
+        }
+        if p.is_valid() && !p.legal_moves().is_empty() {
+            return p;
+        }
+    }
+}
